@@ -11,5 +11,5 @@ for f in sorted(glob.glob(os.path.join(ROOT, "evidence", "C*.json"))):
     e = json.load(open(f))
     c = e.get("coverage", {})
     th = [t.split(".")[-1] for t in c.get("theorems", [])]
-    print("| %s | %s | %s | %s | %s |" % (e.get("property_id"), ", ".join("`%s`" % t for t in th), len(c.get("nonvacuity_examples", []) or []),
-                                      c.get("evaluations", ""), c.get("oracle_failures_matching_known_findings", 0)))
+    print("| %s | %s | %s | %s | %s |" % (e.get("property_id"), ", ".join("`%s`" % t for t in th), c.get("nonvacuity_examples", ""),
+                                      c.get("evaluations", ""), (lambda v: len(v) if isinstance(v, list) else v)(c.get("oracle_failures_matching_known_findings", 0))))
